@@ -116,6 +116,9 @@ func runSpec(spec *Spec) *Result {
 	res.LockOps = simrt.LockOps
 	res.GWrites = simrt.GWrites
 	res.GWTotal = simrt.GWTotal
+	if !spec.Free {
+		res.MapConflicts = simrt.MapConflicts
+	}
 	for _, h := range simrt.Hit {
 		if h != 0 {
 			res.FuncsHit++
